@@ -268,7 +268,7 @@ fn fmt_values(l: Layout, tier: Tier) -> (Vec<u128>, Vec<u128>) {
         _ => alpha::boundary(l, tier),
     };
     // values close to round decimals: round(d/den * 2^f) + j
-    let mut near = vec![];
+    let mut near: Vec<u128> = vec![];
     if l.frac > 0 {
         let ds: Vec<(u128, u128)> = match tier {
             Tier::Quick => {
@@ -298,6 +298,50 @@ fn fmt_values(l: Layout, tier: Tier) -> (Vec<u128>, Vec<u128>) {
                         if !seen.contains(&n) && s2.insert(n) {
                             near.push(n);
                         }
+                    }
+                }
+            }
+        }
+    }
+    // values whose *decimal* integer part is structured: 10^k and its neighbours, d * 10^k, 10^k + 10^j, digit
+    // patterns with zeros at the second and at inner positions (105 * 10^(k-2), 1001 * 10^(k-3)), all nines, for every
+    // k the integer part can hold -- the inputs on which a limb-wise or table-driven integer formatter places a digit
+    // in the wrong slot; each also with a fraction of one half where the layout has one
+    let ib = l.int_bits().saturating_sub(l.signed as u32);
+    if ib >= 4 {
+        let seen: std::collections::HashSet<u128> = main.iter().chain(near.iter()).cloned().collect();
+        let mut s2 = std::collections::HashSet::new();
+        let limit = ZN::<8>::pow2(ib);
+        let mut p = ZN::<8>::one();
+        let mut pows: Vec<ZN<8>> = vec![];
+        while p.lt(&limit) {
+            pows.push(p);
+            p = p.mul_small(10);
+        }
+        let mut cands: Vec<ZN<8>> = vec![];
+        for (k, &pk) in pows.iter().enumerate() {
+            cands.push(pk);
+            cands.push(pk.add(ZN::<8>::one()));
+            if k > 0 {
+                cands.push(pk.sub(ZN::<8>::one()));
+            }
+            for d in [2u64, 3, 5, 9, 11, 12, 19, 99, 101, 105, 109, 1001, 1234567890123456789] {
+                cands.push(pk.mul_small(d));
+            }
+            if k >= 2 {
+                cands.push(pk.add(pows[k / 2]));
+                cands.push(pk.add(pows[k - 1]));
+                cands.push(pk.add(pows[k - 2]).add(ZN::<8>::one()));
+            }
+        }
+        for c in cands {
+            if c.lt(&limit) {
+                let raw0 = c.shl(l.frac).low128();
+                let half = if l.frac >= 1 { 1u128 << (l.frac - 1) } else { 0 };
+                for raw in [raw0, raw0 | half, if l.signed { raw0.wrapping_neg() & mask(w) } else { raw0 }] {
+                    let raw = raw & mask(w);
+                    if !seen.contains(&raw) && s2.insert(raw) {
+                        near.push(raw);
                     }
                 }
             }
